@@ -3,6 +3,7 @@ package rules
 import (
 	"fmt"
 	"go/ast"
+	"go/token"
 	"go/types"
 	"sort"
 	"strings"
@@ -70,6 +71,79 @@ func hasNodeChildren(c *core.Ctx, t types.Type, nodeIface *types.Interface) bool
 		return true
 	}
 	return false
+}
+
+// childFieldsOf lists the Node-typed child fields of a struct node kind (as hasNodeChildren sees them).
+func childFieldsOf(t types.Type, nodeIface *types.Interface) []string {
+	st := structOf(t)
+	nt := core.NamedOf(t)
+	if st == nil || nt == nil {
+		return nil
+	}
+	var out []string
+	for i := 0; i < st.NumFields(); i++ {
+		f := st.Field(i)
+		if !isNodeish(f.Type(), nodeIface, 0) {
+			continue
+		}
+		if _, ok := nonChildFields[nt.Obj().Name()+"."+f.Name()]; ok {
+			continue
+		}
+		if f.Embedded() && f.Name() == "DefinitionMeta" {
+			continue
+		}
+		out = append(out, f.Name())
+	}
+	return out
+}
+
+// fieldVisitedBy: the child field of the node (an alias variable) that statement s hands to
+// self.Visit — directly, under a nil test of that field, or element-wise in a range over it.
+func fieldVisitedBy(info *types.Info, s ast.Stmt, self types.Object, aliases map[types.Object]bool) string {
+	fieldOf := func(e ast.Expr) string {
+		if se, ok := ast.Unparen(e).(*ast.SelectorExpr); ok && aliases[identObj(info, se.X)] {
+			return se.Sel.Name
+		}
+		return ""
+	}
+	visitArg := func(st ast.Stmt) ast.Expr {
+		es, ok := st.(*ast.ExprStmt)
+		if !ok {
+			return nil
+		}
+		ce, ok := es.X.(*ast.CallExpr)
+		if !ok || len(ce.Args) < 1 {
+			return nil
+		}
+		sel, ok := ast.Unparen(ce.Fun).(*ast.SelectorExpr)
+		if !ok || sel.Sel.Name != "Visit" || identObj(info, sel.X) != self {
+			return nil
+		}
+		return ce.Args[0]
+	}
+	switch st := s.(type) {
+	case *ast.ExprStmt:
+		if a := visitArg(st); a != nil {
+			return fieldOf(a)
+		}
+	case *ast.IfStmt: // if t.F != nil { self.Visit(t.F, ...) }
+		if be, ok := ast.Unparen(st.Cond).(*ast.BinaryExpr); ok && be.Op == token.NEQ && st.Else == nil && len(st.Body.List) == 1 {
+			if tv, ok := info.Types[be.Y]; ok && tv.IsNil() {
+				if f := fieldOf(be.X); f != "" {
+					if a := visitArg(st.Body.List[0]); a != nil && fieldOf(a) == f {
+						return f
+					}
+				}
+			}
+		}
+	case *ast.RangeStmt: // for _, x := range t.F { self.Visit(x, ...) }
+		if f := fieldOf(st.X); f != "" && st.Value != nil && len(st.Body.List) == 1 {
+			if a := visitArg(st.Body.List[0]); a != nil && identObj(info, a) != nil && identObj(info, a) == identObj(info, st.Value) {
+				return f
+			}
+		}
+	}
+	return ""
 }
 
 type visitorLit struct {
@@ -183,6 +257,60 @@ func rulePrunesImpl(scopeFiles func(file string) bool, ruleID string, min int, p
 							}
 							return true
 						})
+					}
+				}
+				// a return preceded, in its own and the enclosing statement lists, by statements that
+				// hand every child field of the case's node kind to self.Visit is a complete descent too
+				for _, st := range vl.lit.Body.List {
+					ts, ok := st.(*ast.TypeSwitchStmt)
+					if !ok {
+						continue
+					}
+					ti := parseTypeSwitch(info, ts)
+					if !nodeAliases[identObj(info, ti.subject)] {
+						continue
+					}
+					for _, cs := range ti.cases {
+						if len(cs.types) != 1 || cs.types[0] == nil {
+							continue
+						}
+						want := childFieldsOf(cs.types[0], nodeIface)
+						if len(want) == 0 {
+							continue
+						}
+						var scan func(list []ast.Stmt, covered map[string]bool)
+						scan = func(list []ast.Stmt, covered map[string]bool) {
+							cov := map[string]bool{}
+							for k := range covered {
+								cov[k] = true
+							}
+							for _, x := range list {
+								if f := fieldVisitedBy(info, x, vl.self, nodeAliases); f != "" {
+									cov[f] = true
+									continue
+								}
+								switch y := x.(type) {
+								case *ast.ReturnStmt:
+									all := true
+									for _, w := range want {
+										all = all && cov[w]
+									}
+									if all {
+										if b := fc.BlockOf(y); b != nil {
+											desc[b] = true
+										}
+									}
+								case *ast.IfStmt:
+									scan(y.Body.List, cov)
+									if eb, ok := y.Else.(*ast.BlockStmt); ok {
+										scan(eb.List, cov)
+									}
+								case *ast.BlockStmt:
+									scan(y.List, cov)
+								}
+							}
+						}
+						scan(cs.body, nil)
 					}
 				}
 				exitReachable := func(from *cfg.Block) bool {
@@ -301,4 +429,151 @@ func exitAfterSwitchWithoutDescend(fc *core.FuncCFG, desc map[*cfg.Block]bool, s
 		}
 	}
 	return true // nothing follows: falling out of the switch ends the callback
+}
+
+// V6: a position rule expressed as a test on the visitor context ("a !stream is only allowed as
+// the type of a protocol step") must not let the accepting context leak below the construct:
+// the node kinds that can hold the checked kind (for *Stream: every struct with a field of
+// type Dimensionality) need their own case, and in it the incoming context may be passed on
+// unchanged only to that holding field — not to the other children, through which the same
+// kind can occur again at depth (`!vector {items: !stream ...}`, a stream of streams).
+func ruleContextPositionTests(c *core.Ctx) {
+	const rule = "V6"
+	c.Rule(rule, "where a validation visitor accepts a node kind by a type test on its context, the kinds that can hold it have a case of their own that passes the accepting context only to the holding field, never to their other children", 1)
+	p := c.Pkg("pkg/dsl")
+	if p == nil {
+		c.Undecided(rule, "anchor/pkg/dsl", 0, "package not loaded")
+		return
+	}
+	info := p.TypesInfo
+	nodeTN, _ := p.Types.Scope().Lookup("Node").(*types.TypeName)
+	if nodeTN == nil {
+		c.Undecided(rule, "anchor/Node", 0, "Node interface not found")
+		return
+	}
+	found := 0
+	for _, d := range c.AllDecls() {
+		if c.DeclPkg(d) != p || !dslValidationFiles(c.Fset.Position(d.Pos()).Filename) {
+			continue
+		}
+		ast.Inspect(d.Body, func(n ast.Node) bool {
+			call, ok := n.(*ast.CallExpr)
+			if !ok {
+				return true
+			}
+			f := core.Callee(info, call)
+			if f == nil || f.Name() != "VisitWithContext" || len(call.Args) != 3 {
+				return true
+			}
+			lit, ok := call.Args[2].(*ast.FuncLit)
+			if !ok || len(lit.Type.Params.List) < 3 {
+				return true
+			}
+			var ctxObj, selfObj types.Object
+			if names := lit.Type.Params.List[2].Names; len(names) == 1 {
+				ctxObj = info.Defs[names[0]]
+			}
+			if names := lit.Type.Params.List[0].Names; len(names) == 1 {
+				selfObj = info.Defs[names[0]]
+			}
+			for _, ts := range findTypeSwitches(info, lit.Body, nil) {
+				for _, cs := range ts.cases {
+					// a case that reports an error under a negated type test of the context
+					var accepted types.Type
+					for _, s := range cs.body {
+						ifs, ok := s.(*ast.IfStmt)
+						if !ok || ifs.Init == nil {
+							continue
+						}
+						as, ok := ifs.Init.(*ast.AssignStmt)
+						if !ok || len(as.Rhs) != 1 {
+							continue
+						}
+						ta, ok := ast.Unparen(as.Rhs[0]).(*ast.TypeAssertExpr)
+						if !ok || identObj(info, ta.X) != ctxObj || ta.Type == nil {
+							continue
+						}
+						if u, ok := ast.Unparen(ifs.Cond).(*ast.UnaryExpr); ok && u.Op == token.NOT {
+							accepted = info.TypeOf(ta.Type)
+						}
+					}
+					if accepted == nil || len(cs.types) != 1 || cs.types[0] == nil {
+						continue
+					}
+					checked := cs.types[0]
+					found++
+					fn := c.FuncName(d)
+					// holders: struct kinds with a field whose type the checked kind is assignable to
+					for _, impl := range implementers(c, "Node") {
+						st := structOf(impl)
+						nt := core.NamedOf(impl)
+						if st == nil || nt == nil {
+							continue
+						}
+						var holding []string
+						for i := 0; i < st.NumFields(); i++ {
+							ft := st.Field(i).Type()
+							if types.AssignableTo(checked, ft) && !types.Identical(ft, nodeTN.Type()) {
+								holding = append(holding, st.Field(i).Name())
+							}
+						}
+						if len(holding) == 0 {
+							continue
+						}
+						key := fmt.Sprintf("%s/%s accepted under %s/holder %s", fn, typeLabel(checked), typeLabel(accepted), typeLabel(impl))
+						idx, has := ts.covers(impl)
+						exact := false
+						if has {
+							for _, ct := range ts.cases[idx].types {
+								if ct != nil && types.Identical(ct, impl) {
+									exact = true
+								}
+							}
+						}
+						if !exact {
+							c.Bad(rule, key, ts.stmt.Pos(), fmt.Sprintf("%s (which can hold a %s in %s) has no case of its own: it is visited with the incoming context, so a %s nested below it (e.g. inside the items of a vector) is accepted as if it were at the allowed position", typeLabel(impl), typeLabel(checked), strings.Join(holding, "/"), typeLabel(checked)))
+							continue
+						}
+						leak := ""
+						for _, s := range ts.cases[idx].body {
+							ast.Inspect(s, func(m ast.Node) bool {
+								ce, ok := m.(*ast.CallExpr)
+								if !ok || len(ce.Args) != 2 {
+									return true
+								}
+								sel, ok := ast.Unparen(ce.Fun).(*ast.SelectorExpr)
+								if !ok || identObj(info, sel.X) != selfObj || (sel.Sel.Name != "Visit" && sel.Sel.Name != "VisitChildren") {
+									return true
+								}
+								if identObj(info, ce.Args[1]) != ctxObj {
+									return true // a new context is passed
+								}
+								// unchanged context: only for the holding field
+								okArg := false
+								if sel.Sel.Name == "Visit" {
+									if fs, ok := ast.Unparen(ce.Args[0]).(*ast.SelectorExpr); ok {
+										for _, h := range holding {
+											if fs.Sel.Name == h {
+												okArg = true
+											}
+										}
+									}
+								}
+								if !okArg && leak == "" {
+									leak = types.ExprString(ce)
+								}
+								return true
+							})
+						}
+						c.Check(leak == "", rule, key, ts.cases[idx].cc.Pos(), "passes the accepting context only to "+strings.Join(holding, "/"),
+							fmt.Sprintf("the case for %s passes the accepting context on with `%s`: a %s nested below its other children is accepted as if it were at the allowed position", typeLabel(impl), leak, typeLabel(checked)))
+					}
+				}
+			}
+			return true
+		})
+	}
+	if found == 0 {
+		c.Undecided(rule, "anchor/context type test", 0, "no context-typed acceptance test found in the validation visitors (validateStreams changed shape)")
+	}
 }
